@@ -1,4 +1,5 @@
 import Fdo.Proto.TO1
+import Fdo.Facts
 /-
 C07 — TO1 releases the registered redirect, unmodified, only to the proven device.
 -/
@@ -126,5 +127,15 @@ example :
     let t : ProofView := ⟨true, some [(Cbor.Val.int 10, Cbor.Val.any (.bytes [9, 9])), (Cbor.Val.int 256, Cbor.Val.any (.bytes (1 :: guid)))]⟩
     rvRedirect store 50 (some [9, 9]) (fun k => k == [5]) t = .release [0xd2, 1] := by
   decide
+
+
+/-- **What the source does, in which order** (regenerated call-order facts of
+`TO1Server.rvRedirect` / `helloRVAck`): the session nonce is fetched and compared, the registration
+looked up, the device key taken from its voucher and the token verified before the blob is returned;
+HelloRV looks the registration up before a nonce is stored. -/
+theorem code_facts :
+    Fdo.Facts.allBefore "TO1Server.rvRedirect" ["TO1ProofNonce", "Equal", "RVBlob", "DevicePublicKey", "Verify"] "Tag" = true ∧
+    Fdo.Facts.before "TO1Server.rvRedirect" "DevicePublicKey" "Verify" = true ∧
+    Fdo.Facts.before "TO1Server.helloRVAck" "RVBlob" "SetTO1ProofNonce" = true := by decide +kernel
 
 end Fdo.Props.C07
